@@ -88,6 +88,17 @@ func truncate(resp *dns.Msg, size int) {
 	if resp.Truncated {
 		resp.Answer = nil
 	}
+
+	// Truncation never drops the OPT record.  If there is nothing else left to
+	// drop and the response is still too large, it is because of the options,
+	// for example a large NSID option reflected from the request, so remove
+	// them.
+	opt := resp.IsEdns0()
+	if opt != nil && len(opt.Option) > 0 &&
+		len(resp.Answer)+len(resp.Ns)+len(resp.Extra) == 1 &&
+		resp.Len() > size {
+		opt.Option = nil
+	}
 }
 
 // maxDNSSize returns the maximum buffer size for this network.  For
